@@ -187,6 +187,18 @@ func TestVP_C32_address(t *testing.T) {
 			cand, class := vpC32MutateChar(t, s)
 			judge(cand, class)
 		}
+		// non-ASCII aliases: a multi-byte character whose low byte is a base58
+		// letter, standing in for that letter (one for one) or for a "1x" pair
+		// (two for one, which keeps the byte length and the decoder's grouping)
+		if pos := rapid.IntRange(3, len(s)-1).Draw(t, "alias_pos"); true {
+			r := rune(0x100*rapid.SampledFrom([]int{1, 2, 7, 0x20, 0xff}).Draw(t, "alias_page") + int(s[pos]))
+			judge(s[:pos]+string(r)+s[pos+1:], "rune-alias")
+		}
+		for i := 3; i+1 < len(s); i++ {
+			if s[i] == '1' {
+				judge(s[:i]+string(rune(0x100+int(s[i+1])))+s[i+2:], "rune-alias-pair")
+			}
+		}
 		// byte-level: one payload or checksum byte changed, checksum left alone
 		data := base58.Decode(s[3:])
 		if len(data) != 68 {
